@@ -177,6 +177,49 @@ fn gen_delivery(t: &mut Tape) -> Delivery {
     }
 }
 
+/// the random family's input: a document in one encoding, optionally with an odd tail byte, invalid UTF-8
+/// sequences and disturbed first bytes
+fn gen_random_bytes(t: &mut Tape) -> (String, Enc, Vec<u8>) {
+    let text: String = match t.weighted(&[5, 3, 2]) {
+        0 => gen_accepted(t, Avoid::NONE, 6).text(),
+        1 => gen_hostile(t, 5).text(),
+        _ => {
+            let s = pick_text(t);
+            head_lines(s, 120)
+        }
+    };
+    let enc = ENCS[t.below(4)];
+    let mut bytes = encode_text(&text, enc);
+    if t.chance(10) {
+        bytes.push(t.byte()); // odd tail byte
+    }
+    if t.chance(12) {
+        // invalid or truncated multi-byte sequences (next to valid multi-byte characters): lossy decoding must
+        // not depend on where the chunks end
+        let n = 1 + t.below(4);
+        for _ in 0..n {
+            let pos = t.below(bytes.len() + 1);
+            let bad: &[u8] = *t.pick(&[&[0xE3u8, 0x81][..], &[0xE3, 0x81, 0xC3, 0xA9], &[0xF0, 0x9F, 0x98], &[0xF0, 0x9F, 0x98, 0xE4, 0xB8, 0x8A], &[0xC3], &[0xC3, 0xC3, 0xA9], &[0x80], &[0xFF], &[0xED, 0xA0, 0x80], &[0xE3, 0x81, 0xF0, 0x9F, 0x98, 0x80]]);
+            for (k, b) in bad.iter().enumerate() {
+                bytes.insert(pos + k, *b);
+            }
+        }
+    }
+    if t.chance(12) {
+        // disturb the first bytes: BOM-like prefixes that are no BOM, half BOMs
+        let n = 1 + t.below(3);
+        for j in 0..n.min(bytes.len()) {
+            if t.chance(60) {
+                bytes[j] = *t.pick(&[0xEFu8, 0xBB, 0xBF, 0xFF, 0xFE, 0x00, b'o', b'[']);
+            }
+        }
+        if t.chance(40) {
+            bytes.insert(0, *t.pick(&[0xEFu8, 0xFF, 0xFE, 0xBB]));
+        }
+    }
+    (text, enc, bytes)
+}
+
 /// scale family: (encoding, bytes, delivery)
 fn gen_long_case(t: &mut Tape) -> (Enc, Vec<u8>, Delivery) {
     let text = if t.chance(15) { crate::gen::doc::gen_many_lines_doc(t) } else { crate::gen::doc::gen_long_line_doc(t) };
@@ -309,31 +352,7 @@ pub fn run(ctx: &mut Ctx) {
 
     let cases = ctx.tier.pick(300_000u64, 3_000_000u64);
     ctx.pbt("c08-random", cases, 2600, |t, st| {
-        let text: String = match t.weighted(&[5, 3, 2]) {
-            0 => gen_accepted(t, Avoid::NONE, 6).text(),
-            1 => gen_hostile(t, 5).text(),
-            _ => {
-                let s = pick_text(t);
-                head_lines(s, 120)
-            }
-        };
-        let enc = ENCS[t.below(4)];
-        let mut bytes = encode_text(&text, enc);
-        if t.chance(10) {
-            bytes.push(t.byte()); // odd tail byte
-        }
-        if t.chance(12) {
-            // disturb the first bytes: BOM-like prefixes that are no BOM, half BOMs
-            let n = 1 + t.below(3);
-            for j in 0..n.min(bytes.len()) {
-                if t.chance(60) {
-                    bytes[j] = *t.pick(&[0xEFu8, 0xBB, 0xBF, 0xFF, 0xFE, 0x00, b'o', b'[']);
-                }
-            }
-            if t.chance(40) {
-                bytes.insert(0, *t.pick(&[0xEFu8, 0xFF, 0xFE, 0xBB]));
-            }
-        }
+        let (text, enc, bytes) = gen_random_bytes(t);
         let d = gen_delivery(t);
         st.eval();
         let reference = match rosu_map::from_bytes::<Beatmap>(&bytes) {
@@ -403,31 +422,7 @@ pub fn run(ctx: &mut Ctx) {
 
 fn replay_tape(tape: &[u8]) -> Result<Option<String>, Fail> {
     let mut t = Tape::new(tape);
-    let text: String = match t.weighted(&[5, 3, 2]) {
-        0 => gen_accepted(&mut t, Avoid::NONE, 6).text(),
-        1 => gen_hostile(&mut t, 5).text(),
-        _ => {
-            let s = pick_text(&mut t);
-            head_lines(s, 120)
-        }
-    };
-    let enc = ENCS[t.below(4)];
-    let mut bytes = encode_text(&text, enc);
-    if t.chance(10) {
-        bytes.push(t.byte());
-    }
-    if t.chance(12) {
-        // disturb the first bytes: BOM-like prefixes that are no BOM, half BOMs
-        let n = 1 + t.below(3);
-        for j in 0..n.min(bytes.len()) {
-            if t.chance(60) {
-                bytes[j] = *t.pick(&[0xEFu8, 0xBB, 0xBF, 0xFF, 0xFE, 0x00, b'o', b'[']);
-            }
-        }
-        if t.chance(40) {
-            bytes.insert(0, *t.pick(&[0xEFu8, 0xFF, 0xFE, 0xBB]));
-        }
-    }
+    let (_text, _enc, bytes) = gen_random_bytes(&mut t);
     let d = gen_delivery(&mut t);
     let reference = rosu_map::from_bytes::<Beatmap>(&bytes).map_err(|e| Fail::new(format!("from_bytes error {e}"), "osu", bytes.clone()))?;
     check_one(&bytes, &reference, &d).map(|_| None).map_err(|m| Fail::new(m, "osu", bytes))
